@@ -370,3 +370,34 @@ pub open spec fn block_safe(b: Seq<u8>, s: int, e: int, v: Seq<Range<usize>>) ->
 }
 
 } // verus!
+verus! {
+// ------------------------------------------------------------------ marker vocabulary (L4)
+/// total length of the first k marker ranges
+pub open spec fn removed_before(m: Seq<(Range<usize>, Option<usize>)>, k: int) -> int
+    decreases k
+{
+    if k <= 0 { 0 } else { removed_before(m, k - 1) + (m[k - 1].0.end - m[k - 1].0.start) }
+}
+} // verus!
+verus! {
+pub open spec fn rcontains(m: Range<usize>, x: usize) -> bool { m.start <= x < m.end }
+/// merge_child_markers' test: the child's start or end lies in the (half-open) marker
+pub open spec fn touches(m: Range<usize>, c: Range<usize>) -> bool { rcontains(m, c.start) || rcontains(m, c.end) }
+pub open spec fn hull(m: Range<usize>, c: Range<usize>) -> Range<usize> {
+    Range { start: if m.start <= c.start { m.start } else { c.start }, end: if m.end >= c.end { m.end } else { c.end } }
+}
+/// (number of leading items merged, resulting marker) of merge_child_markers
+pub open spec fn mcm(s: Seq<Range<usize>>, m: Range<usize>) -> (int, Range<usize>)
+    decreases s.len()
+{
+    if s.len() == 0 { (0, m) }
+    else if touches(m, s[0]) { let r = mcm(s.drop_first(), hull(m, s[0])); (r.0 + 1, r.1) }
+    else { (0, m) }
+}
+pub open spec fn marker_ranges(m: Seq<(Range<usize>, Option<usize>)>) -> Seq<Range<usize>> {
+    Seq::new(m.len(), |i: int| m[i].0)
+}
+pub open spec fn marker_ref_ranges(m: Seq<&(Range<usize>, Option<usize>)>) -> Seq<Range<usize>> {
+    Seq::new(m.len(), |i: int| (*m[i]).0)
+}
+} // verus!
